@@ -1012,10 +1012,34 @@ def _fold_loop(mod, fn, acc):
             inner = res(e.args[0], depth + 1)
             return ast.parse("iter(%s)" % unparse(inner), mode="eval").body
         return ast.parse(unparse(e), mode="eval").body
-    # acc = next(it)
+    # acc = next(it)      or      acc = G[next(it)] with the loop adding G[x]: a fold over (G[x] for x in it)
     fv = first.value
     if not (isinstance(fv, ast.Call) and unparse(fv.func) == "next" and len(fv.args) == 1 and isinstance(fv.args[0], ast.Name)):
-        return None
+        nexts = [n for n in ast.walk(fv) if isinstance(n, ast.Call) and unparse(n.func) == "next" and len(n.args) == 1
+                 and isinstance(n.args[0], ast.Name) and unparse(loop.iter) == n.args[0].id]
+        if len(nexts) != 1 or len(loop.body) != 1 or not isinstance(loop.body[0], ast.Assign):
+            return None
+        itname, x = nexts[0].args[0].id, loop.target.id
+        marker = unparse(nexts[0])
+        templ = ast.parse(unparse(fv), mode="eval").body
+
+        class _N(ast.NodeTransformer):
+            def visit_Call(self, node):
+                if unparse(node) == marker:
+                    return ast.Name(id=x, ctx=ast.Load())
+                return self.generic_visit(node)
+        templ = _N().visit(templ)
+        b = loop.body[0]
+        if not (unparse(b.targets[0]) == acc and isinstance(b.value, ast.BinOp) and type(b.value.op) in _BINOPS
+                and unparse(b.value.left) == acc and unparse(b.value.right) == unparse(templ)):
+            return None
+        src = res(env[itname]) if itname in env else None
+        if src is None:
+            return None
+        if isinstance(src, ast.Call) and unparse(src.func) == "iter" and len(src.args) == 1:
+            src = src.args[0]
+        return ast.parse("reduce(operator.%s, (%s for %s in %s))" % (_BINOPS[type(b.value.op)], unparse(templ), x, unparse(src)),
+                         mode="eval").body
     itname = fv.args[0].id
     if unparse(loop.iter) != itname or len(loop.body) != 1:
         return None
@@ -1056,6 +1080,14 @@ def _fold_value(fn, acc, block=None):
                 env[st.targets[0].id] = st.value
         elif isinstance(st, ast.For) and any(isinstance(x, ast.Assign) and unparse(x.targets[0]) == acc for x in st.body):
             loop = st
+        elif loop is None and isinstance(st, ast.Expr) and isinstance(st.value, ast.Call) \
+                and isinstance(st.value.func, ast.Attribute) and st.value.func.attr == "append" \
+                and isinstance(st.value.func.value, ast.Name) and st.value.func.value.id in env \
+                and isinstance(env[st.value.func.value.id], (ast.ListComp, ast.List, ast.BinOp)) \
+                and len(st.value.args) == 1 and not st.value.keywords:
+            # L = [..] ; L.append(e)   is   L = [..] + [e]
+            nm_ = st.value.func.value.id
+            env[nm_] = ast.parse("%s + [%s]" % (unparse(env[nm_]), unparse(st.value.args[0])), mode="eval").body
     if first is None or loop is None or len(loop.body) != 1 or not isinstance(loop.body[0], ast.Assign):
         return None
 
